@@ -57,6 +57,16 @@ groups3 = {
  'tuiapp2': ['crates/trippy-tui/src/frontend/tui_app.rs', 'crates/trippy-tui/src/frontend/config.rs', 'crates/trippy-tui/src/frontend/theme.rs', 'crates/trippy-tui/src/app.rs'],
  'packet2': ['crates/trippy-packet/src/tcp.rs', 'crates/trippy-packet/src/udp.rs', 'crates/trippy-packet/src/ipv6.rs', 'crates/trippy-packet/src/buffer.rs', 'crates/trippy-packet/src/error.rs'],
 }
+groups4 = {
+ 'defaults': ['crates/trippy-core/src/config.rs', 'crates/trippy-tui/src/config/constants.rs', 'crates/trippy-core/src/lib.rs'],
+ 'cmd': ['crates/trippy-tui/src/config/cmd.rs', 'crates/trippy-tui/src/config/columns.rs'],
+ 'srcaddr': ['crates/trippy-core/src/net/source.rs', 'crates/trippy-core/src/net/platform/byte_order.rs', 'crates/trippy-core/src/net/socket.rs', 'crates/trippy-core/src/net.rs'],
+ 'keys': ['crates/trippy-tui/src/frontend/binding.rs', 'crates/trippy-tui/src/frontend/theme.rs', 'crates/trippy-tui/src/frontend/render/bar.rs', 'crates/trippy-tui/src/frontend/render/histogram.rs', 'crates/trippy-tui/src/frontend/render/history.rs', 'crates/trippy-tui/src/frontend/render/flows.rs', 'crates/trippy-tui/src/frontend/render/help.rs', 'crates/trippy-tui/src/frontend/render/tabs.rs'],
+ 'dnsres': ['crates/trippy-dns/src/resolver.rs', 'crates/trippy-dns/src/config.rs', 'crates/trippy-dns/src/lib.rs'],
+ 'repcsv': ['crates/trippy-tui/src/report/csv.rs', 'crates/trippy-tui/src/report/types.rs', 'crates/trippy-tui/src/report/stream.rs', 'crates/trippy-tui/src/report/dot.rs', 'crates/trippy-tui/src/print.rs'],
+}
+if len(sys.argv) > 2 and sys.argv[2] == 'set4':
+    groups = groups4
 if len(sys.argv) > 2 and sys.argv[2] == 'set2':
     groups = groups2
 if len(sys.argv) > 2 and sys.argv[2] == 'set3':
